@@ -154,7 +154,7 @@ func drawC03Script(t *rapid.T, c incrConf, trickleBatch bool) c03Script {
 		// a checkpoint can fall inside a source transaction: the resumed stream then starts mid-block
 		o.startInTx = rapid.IntRange(0, 2).Draw(t, "startInTx") == 0
 	}
-	o.selectInTx = !c.resume
+	o.selectInTx = true
 	o.noCkKeys = c.resume
 	trickle := trickleBatch && rapid.Bool().Draw(t, "trickle")
 	if trickle {
